@@ -193,6 +193,13 @@ func (q *queue) Put(data []byte) error {
 		return ErrExceedingMessageSizeLimit
 	}
 
+	// Allocation, copy and publication form one critical section: sequences are handed out
+	// in allocation order, so the index item of the last sequence always ends at the write
+	// cursor (initDataPageIndex restores the cursor from it after a restart) and data page
+	// ids never decrease with the sequence (GC truncates below the acknowledged one's page).
+	q.rwMutex.Lock()
+	defer q.rwMutex.Unlock()
+
 	dataPageIndex, dataPage, offset, err := q.alloc(dataLength)
 	if err != nil {
 		return err
@@ -350,11 +357,9 @@ func (q *queue) GC() {
 	q.indexPageFct.TruncatePages(indexPageID)
 }
 
-// alloc allocates the data page and offset for message writing
+// alloc allocates the data page and offset for message writing.
+// NOTE: the caller must hold rwMutex.
 func (q *queue) alloc(dataLen int) (dataPageIndex int64, dataPage page.MappedPage, offset int, err error) {
-	q.rwMutex.Lock()
-	defer q.rwMutex.Unlock()
-
 	// prepare the data pointer
 	if q.messageOffset+dataLen > dataPageSize {
 		// sync previous data page
@@ -379,11 +384,9 @@ func (q *queue) alloc(dataLen int) (dataPageIndex int64, dataPage page.MappedPag
 	return q.dataPageIndex, q.dataPage, messageOffset, nil
 }
 
-// persistMetaOfMessage persists metadata of message after write data
+// persistMetaOfMessage persists metadata of message after write data.
+// NOTE: the caller must hold rwMutex.
 func (q *queue) persistMetaOfMessage(dataPageIndex int64, dataLen, messageOffset int) error {
-	q.rwMutex.Lock()
-	defer q.rwMutex.Unlock()
-
 	seq := q.appendedSeq.Load() + 1 // append sequence
 	indexPageIndex := seq / indexItemsPerPage
 	if indexPageIndex != q.indexPageIndex {
